@@ -758,6 +758,7 @@ func gvbRunInner(c *gvbCase, res *gvbResult) {
 	res.phase = "Add"
 	dec := gvbNewParser()
 	finishCalls, finishAt := 0, -1
+	var addErr error
 	for i, f := range fr1 {
 		cur := i
 		finish := func(header *parser.PacketHeader, eventName string, decode parser.Decode) {
@@ -823,13 +824,15 @@ func gvbRunInner(c *gvbCase, res *gvbResult) {
 			}
 		}
 		res.phase = "Add"
-		if err := dec.Add(append([]byte{}, f...), finish); err != nil {
-			res.fail("decode.error", -1, fmt.Sprintf("Add(frame %d of %d) returned error: %v", i+1, len(fr1), err))
-			return
+		if addErr = dec.Add(append([]byte{}, f...), finish); addErr != nil {
+			res.fail("decode.error", -1, fmt.Sprintf("Add(frame %d of %d) returned error: %v", i+1, len(fr1), addErr))
+			break
 		}
 	}
-	if finishCalls != 1 || finishAt != len(fr1)-1 {
-		res.fail("frames.finish", -1, fmt.Sprintf("finish called %d times, first after frame %d of %d", finishCalls, finishAt+1, len(fr1)))
+	// Exactly one finish, during the Add of the last frame. (After an Add error no finish is expected any more,
+	// but one that already happened came too early.)
+	if finishCalls > 1 || (finishCalls == 1 && finishAt != len(fr1)-1) || (finishCalls == 0 && addErr == nil) {
+		res.fail("frames.finish", -1, fmt.Sprintf("finish called %d times, first during Add of frame %d of %d", finishCalls, finishAt+1, len(fr1)))
 	}
 }
 
@@ -865,18 +868,19 @@ func (h *gvbHarness) singleKinds(typ parser.PacketType, gv *gvbVal) map[string]b
 // case: control runs with a benign event name, a benign header, and each argument alone tell which part of the
 // case the failure follows; "combo" if it follows none of the arguments alone.
 func (h *gvbHarness) attribute(c *gvbCase, kind string) string {
-	if c.typ == parser.PacketTypeEvent && gvbEventKind(c.event) != "other" && (kind == "decode.error" || kind == "panic") {
+	if kind == "decode.error" || kind == "panic" {
 		ctl := *c
-		ctl.event = "e"
-		if !h.kindsOf(&ctl)[kind] {
-			return gvbEventKind(c.event)
+		if c.typ == parser.PacketTypeEvent && gvbEventKind(c.event) != "other" {
+			ctl.event = "e"
+			if !h.kindsOf(&ctl)[kind] {
+				return gvbEventKind(c.event)
+			}
 		}
-	}
-	if (c.nsp != "/" || c.id != nil) && (kind == "decode.error" || kind == "panic") {
-		ctl := *c
-		ctl.nsp, ctl.id = "/", nil
-		if !h.kindsOf(&ctl)[kind] {
-			return "header"
+		if c.nsp != "/" || c.id != nil {
+			ctl.nsp, ctl.id = "/", nil
+			if !h.kindsOf(&ctl)[kind] {
+				return "header"
+			}
 		}
 	}
 	switch len(c.vals) {
